@@ -29,15 +29,15 @@ P = "Arc.Pruning.Props"
 THEOREMS = [(P, n) for n in (
     "C18_civil_roundtrip_days", "C18_civil_roundtrip_date", "C18_paths_cover", "C18_generated_within", "C18_path_injective",
     "C18_bounds_sound_conj", "C18_pruning_sound_guarded",
-    "C18_or_refuted", "C18_not_refuted", "C18_other_time_column_refuted", "C18_default_start_refuted",
-    "C18_default_end_refuted", "C18_inclusive_end_refuted", "C18_pre_epoch_refuted")]
+    "C18_or_refuted", "C18_not_refuted", "C18_timestamp_column_refuted", "C18_default_start_refuted",
+    "C18_default_end_refuted", "C18_pre_epoch_refuted")]
 MODULES = [P]
 TIE_NAME = ("C18 correspondence (pruning.ExtractTimeRange/GeneratePartitionPaths under a controlled clock; "
             "api.convertSQLToStoragePaths + real DuckDB with pruning on/off vs Arc.Pruning.Model)")
 US = 10 ** 6
 HOUR = 3600 * US
 DAY = 24 * HOUR
-COLS = {"time": "CTime", "event_time": "CTimeLike", "sample_timestamp": "CTimestampCol"}
+COLS = {"time": "CTime", "event_time": "CTimeLike", "sample_timestamp": "CTimestampCol", "timestamp": "CTsExact"}
 OPS = {">=": "OGe", ">": "OGt", "<": "OLt", "<=": "OLe", "=": "OEq", "<>": "ONe"}
 UNITS = {"second": ("RSecond", US), "minute": ("RMinute", 60 * US), "hour": ("RHour", HOUR), "day": ("RDay", DAY), "week": ("RWeek", 7 * DAY)}
 PRUNER_HARNESS = {"internal/pruning/zz_verif_clock.go": "harness/pruning/verif_clock.go",
@@ -45,8 +45,8 @@ PRUNER_HARNESS = {"internal/pruning/zz_verif_clock.go": "harness/pruning/verif_c
 QUERY_HARNESS = {"internal/pruning/zz_verif_clock.go": "harness/pruning/verif_clock.go",
                  "internal/api/zz_pruning_query_verif_test.go": "harness/pruning/query_verif_test.go"}
 CLOCK_REWRITE = {"internal/pruning/partition_pruner.go": [("time.Now().UTC()", "verifNow()", 2)]}
-CLASS_SIG = {1: "where-or", 2: "where-not", 3: "other-column-ending-in-time", 4: "no-lower-bound-default-2020",
-             5: "no-upper-bound-default-now-plus-1d", 6: "inclusive-end-on-hour-boundary"}
+CLASS_SIG = {1: "where-or", 2: "where-not", 3: "column-named-timestamp", 4: "no-lower-bound-default-2020",
+             5: "no-upper-bound-default-now-plus-1d"}
 SIG_PRE_EPOCH = "rows-before-1970"
 
 
@@ -188,7 +188,7 @@ def around(rng, base):
 
 def gen_where(rng, base, now, kinds=None, cols=None, allow_rel=True, ub_base=None, lb_base=None):
     """Mostly-valid WHERE clauses of the shapes dashboards send, plus the shapes the pruner gets wrong."""
-    cols = cols or ["time"] * 8 + ["event_time", "sample_timestamp"]
+    cols = cols or ["time"] * 8 + ["event_time", "sample_timestamp", "timestamp"]
     shape = rng.random()
 
     def lower(c=None):
@@ -223,7 +223,9 @@ def gen_where(rng, base, now, kinds=None, cols=None, allow_rel=True, ub_base=Non
         else:
             ws = [upper()]
     elif shape < 0.64 and allow_rel:   # relative
-        ws = [rel(True)] + ([rel(False)] if rng.random() < 0.4 else []) + ([upper()] if rng.random() < 0.2 else [])
+        ws = [rel(True)] + ([rel(False)] if rng.random() < 0.4 else [])
+        if rng.random() < 0.35:            # explicit upper bound around / after `now`
+            ws.append(A(("cmp", rng.choice(cols), rng.choice(["<", "<="]), mk_lit(rng, around(rng, now + rng.choice([0, 2, 3, 45]) * DAY), kinds))))
     elif shape < 0.70:        # two lower bounds / redundant atoms / equality
         ws = [lower(), lower(), upper(after=30 * HOUR)] + ([A(("cmp", "time", rng.choice(["=", "<>"]), mk_lit(rng, around(rng, base), kinds)))] if rng.random() < 0.5 else [])
     elif shape < 0.74:        # no time predicate at all
@@ -255,16 +257,21 @@ def gen_where(rng, base, now, kinds=None, cols=None, allow_rel=True, ub_base=Non
     return w
 
 
-# the refutation witnesses of Props.v (pruner level: any clock; query level: see build_layout)
-def witnesses(base, now):
+# the refutation witnesses of Props.v as statements (pruner level: controlled clock; query level:
+# every range is bounded so that it stays under the 50 000-path cap whatever the wall clock is)
+def witnesses(base, now, bounded=False):
     L = lambda us: {"us": us, "text": spell(us, "space")[0], "ok": True}
+    lo = A(("cmp", "time", ">=", L(base)))
+    hi = A(("cmp", "time", "<", L(base + 2 * DAY)))
     return [
-        ("or", ("or", A(("cmp", "time", ">=", L(base))), A(("flag", 0)))),
-        ("not", ("not", A(("cmp", "time", ">=", L(base))))),
-        ("other-col", ("and", A(("cmp", "event_time", ">=", L(base))), A(("cmp", "time", "<", L(base + 2 * DAY))))),
+        ("or", ("or", ("and", lo, hi) if bounded else lo, A(("flag", 0)))),
+        ("not", ("and", ("not", lo), hi) if bounded else ("not", lo)),
+        ("other-col", ("and", A(("cmp", "event_time", ">=", L(base))), ("and", A(("cmp", "time", ">=", L(base - DAY))), hi))),   # fixed by 2f7fd11
+        ("other-col-default-start", ("and", A(("cmp", "event_time", ">=", L(base))), hi)),
+        ("timestamp-col", ("and", A(("cmp", "timestamp", ">=", L(base))), hi)),
         ("upper-only", A(("cmp", "time", "<", L(base + DAY)))),
-        ("lower-only", A(("cmp", "time", ">=", L(base)))),
-        ("incl-end", ("and", A(("cmp", "time", ">=", L(base))), A(("cmp", "time", "<=", L(base + 2 * HOUR))))),
+        ("lower-only", A(("cmp", "time", ">=", L((now - 3 * DAY) // HOUR * HOUR if bounded else base)))),
+        ("incl-end", ("and", lo, A(("cmp", "time", "<=", L(base + 2 * HOUR))))),
         ("pre-epoch", ("and", A(("cmp", "time", ">=", L(-400 * DAY))), A(("cmp", "time", "<", L(DAY))))),
         ("between", A(("between", "time", L(base), L(base + DAY)))),
     ]
@@ -274,9 +281,24 @@ def witnesses(base, now):
 # pruner level
 # ---------------------------------------------------------------------------------------
 
+def load_corpus():
+    """corpus/C18/*.json: regression witnesses of fixed findings / minimised past disagreements (WHERE ASTs)."""
+    def tup(x):
+        if isinstance(x, list):
+            return tuple(tup(y) for y in x)
+        return x
+    d = os.path.join(vlib.ROOT, "corpus", "C18")
+    out = []
+    for fn in sorted(os.listdir(d)) if os.path.isdir(d) else []:
+        if fn.endswith(".json"):
+            for e in json.load(open(os.path.join(d, fn))).get("cases", []):
+                out.append((e.get("name", fn), tup(e["w"])))
+    return out
+
+
 def pruner_cases(rng, tier):
-    n = 420 if tier == "quick" else 6000
-    cases = []
+    n = 420 if tier == "quick" else 4000
+    cases = [{"w": w, "now": 1719151200 * US + 123456, "tail": "", "where": True, "tag": "corpus-" + name} for name, w in load_corpus()]
     base0 = 1710511200 * US     # 2024-03-15 14:00:00
     for name, w in witnesses(base0, base0 + 100 * DAY):
         cases.append({"w": w, "now": base0 + 100 * DAY + 123456, "tail": "", "where": True, "tag": "witness-" + name})
@@ -284,7 +306,8 @@ def pruner_cases(rng, tier):
     for i in range(n):
         base = rng.choice(bases)
         now = rng.choice([base + rng.randrange(-3, 40) * DAY + rng.randrange(DAY), 1726000000 * US + rng.randrange(DAY)])
-        c = {"w": gen_where(rng, base, now), "now": now, "tail": rng.choice(TAILS), "where": True, "tag": "gen"}
+        c = {"w": gen_where(rng, base, now, ub_base=rng.choice([1578614400 * US, 1583020800 * US, base]), lb_base=now - rng.choice([1, 2, 30]) * DAY),
+             "now": now, "tail": rng.choice(TAILS), "where": True, "tag": "gen"}
         cases.append(c)
     # malformed stream: no WHERE, WHERE-less subquery text, lower-case keyword
     for _ in range(10 if tier == "quick" else 100):
@@ -323,6 +346,8 @@ def pcase_coq(c):
     else:                                  # very long lists: lengths + 40 sampled positions each
         def smp(l):
             n = len(l)
+            if n == 0:
+                return ""
             idx = sorted({0, 1, n - 1, n - 2, n // 2, n // 3} | {(k * 7919 + 13) % n for k in range(34)})
             return ";".join("(%d%%N,%s)" % (i, cstr(l[i])) for i in idx if 0 <= i < n)
         gen = "(Some (GSample %d%%N %d%%N [%s] [%s]))" % (len(o["hours"]), len(o["days"]), smp(o["hours"]), smp(o["days"]))
@@ -346,14 +371,15 @@ def day_dir(dn):
 def build_layout(rng, now):
     """Hour- and day-level files: a busy stretch in 2024, a daily-compacted day, rows exactly on hour
     boundaries, data before 2020, before 1970, around `now` and in the future."""
-    base = 1710511200 * US      # 2024-03-15 14:00
-    files = []
+    base = 1584280800 * US      # 2020-03-15 14:00 (close to the default start 2020-01-01: ranges that
+    files = []                  # fall back to it stay a few thousand hours long)
     nid = [0]
 
     def row(t):
         nid[0] += 1
         return {"id": nid[0], "time": t, "etime": t + rng.choice([0, -3 * DAY, 5 * HOUR, 40 * DAY]),
-                "stime": t + rng.choice([0, 2 * DAY, -7 * HOUR]), "f": [rng.random() < 0.5 for _ in range(4)]}
+                "stime": t + rng.choice([0, 2 * DAY, -7 * HOUR]), "ts": t + rng.choice([0, 0, 6 * HOUR, -2 * DAY]),
+                "f": [rng.random() < 0.5 for _ in range(4)]}
 
     def hour_file(h, k=3):
         ts = [h * HOUR, h * HOUR + HOUR - 1] + [h * HOUR + rng.randrange(HOUR) for _ in range(k)]
@@ -382,10 +408,11 @@ def build_layout(rng, now):
 
 
 def query_cases(rng, tier, base, now):
-    n = 90 if tier == "quick" else 1500
+    n = 90 if tier == "quick" else 600
     # spellings DuckDB accepts for a TIMESTAMP comparison
     kinds = ["space", "space", "rfc", "date", "minute", "frac", "offset", "plus00", "t_nozone"]
-    cases = [{"w": w, "tag": "witness-" + name} for name, w in witnesses(base, now)]
+    cases = [{"w": w, "tag": "witness-" + name} for name, w in witnesses(base, now, bounded=True)]
+    cases += [{"w": w, "tag": "corpus-" + name} for name, w in load_corpus()]
     bases = [base, base, base, base + DAY, 1577836800 * US, 1578614400 * US, 0]
     for _ in range(n):
         b = rng.choice(bases)
@@ -413,8 +440,8 @@ def run_queries(files, cases, tag):
 
 
 def row_coq(r):
-    return "(%d%%N,{|r_time:=%s;r_etime:=%s;r_stime:=%s;r_flags:=[%s]|})" % (
-        r["id"], hz(r["time"]), hz(r["etime"]), hz(r["stime"]), ";".join("true" if b else "false" for b in r["f"]))
+    return "(%d%%N,{|r_time:=%s;r_etime:=%s;r_stime:=%s;r_ts:=%s;r_flags:=[%s]|})" % (
+        r["id"], hz(r["time"]), hz(r["etime"]), hz(r["stime"]), hz(r["ts"]), ";".join("true" if b else "false" for b in r["f"]))
 
 
 def file_coq(f):
@@ -600,6 +627,7 @@ def report(res, pcases, files, qcases, ev, failed):
     for sig, hits in sorted(known_hit.items()):
         res.known_finding("[%s] %s (%d queries this run return different rows with pruning on and off, each row set predicted by the model)" % (sig, known[sig]["what"], len(hits)))
     if unexplained:
+        unexplained.sort(key=lambda u: u[0] is not None)      # inputs inside the theorem's domain first
         sig, w, dis = unexplained[0]
         res.violation("pruning changes the rows of a query outside every known class" if not dis else
                       "pruning changes the rows of a query and the model does not predict the row sets",
